@@ -16,6 +16,7 @@ fn main() {
         "retryopts" => engines::retryopts::run,
         "filter" => engines::filter::run,
         "attempt" => engines::attempt::run,
+        "glue" => engines::zoo::run,
         "reporters" => engines::reporters::run,
         "sched" => {
             engines::sched::start_watchdog();
